@@ -16,6 +16,7 @@ type FuncResult struct {
 	Decls    []string
 	Facts    []Fact
 	Errs     []string
+	Warns    []string
 	Assumes  []string
 	Externs  []string
 	Used     []string
@@ -66,7 +67,7 @@ func (w *World) genFunction(key string, conc bool) (*FuncResult, error) {
 	}
 	ex := vc.setupAndRun()
 	vc.finish(ex)
-	res := &FuncResult{Key: key, Spec: spec, Decls: append(append([]string{}, vc.sortDecls...), vc.decls...), Facts: vc.facts, Errs: vc.errs, Pos: fn.Pos(), Conc: conc}
+	res := &FuncResult{Key: key, Spec: spec, Decls: append(append([]string{}, vc.sortDecls...), vc.decls...), Facts: vc.facts, Errs: vc.errs, Warns: vc.warns, Pos: fn.Pos(), Conc: conc}
 	for a := range vc.assumptions {
 		res.Assumes = append(res.Assumes, a)
 	}
